@@ -65,6 +65,22 @@ def real_case(job):
     return {'error': type(e).__name__ + ': ' + str(e)[:100]}
 
 
+class GuardBand(Exception):
+  """a size pair sits so close to the ratio bound that exact and floating-point comparison disagree"""
+
+
+def ratio_ok(c, t, tol):
+  """exact reading of `1/(1+tol) <= c/t <= 1+tol`; raises GuardBand when the float evaluation the code performs differs"""
+  from fractions import Fraction
+  ft = Fraction(tol)
+  exact = 1 / (1 + ft) <= Fraction(c, t) <= 1 + ft
+  hi = 1.0 + tol
+  flt = (c / t >= 1.0 / hi) and (c / t <= hi)
+  if exact != flt:
+    raise GuardBand(f'c={c} t={t} tol={tol}')
+  return exact
+
+
 def brute(cls, setting):
   """the property's sentence, literally: assignments of each geo to T / C / neither respecting eligibility, size ranges,
   geo-ratio tolerance, both groups non-empty"""
@@ -83,10 +99,8 @@ def brute(cls, setting):
       continue
     if cr and not cr[0] <= c <= cr[1]:
       continue
-    if tol is not None:
-      ft = Fraction(tol)
-      if not (1 / (1 + ft) <= Fraction(c, t) <= 1 + ft):
-        continue
+    if tol is not None and not ratio_ok(c, t, tol):
+      continue
     total += 1
   return total
 
@@ -115,10 +129,8 @@ def spec_count(counts, setting, n_total):
       continue
     if cr and not cr[0] <= c <= cr[1]:
       continue
-    if tol is not None:
-      ft = Fraction(tol)
-      if not (1 / (1 + ft) <= Fraction(c, t) <= 1 + ft):
-        continue
+    if tol is not None and not ratio_ok(c, t, tol):
+      continue
     total += v
   return total
 
@@ -189,7 +201,11 @@ def run(out, tier, model_ok=True):
     if 'error' in r:
       out.oracle_violation({'call': 'count_max_designs', 'symptom': 'exception'}, case, f'{cls} {s}: {r["error"]}')
       continue
-    want = brute(cls, s)
+    try:
+      want = brute(cls, s)
+    except GuardBand:
+      out.count(None)      # a size pair on the ratio bound up to rounding: outside the comparison
+      continue
     if r['count'] != r['listing'] or r['distinct'] != r['listing'] or r['count'] != want:
       out.oracle_violation({'call': 'count_max_designs', 'symptom': 'count-mismatch'}, case,
                            f'classes {cls} setting {s}: count_max_designs={r["count"]}, generators list {r["listing"]} pairs '
@@ -223,7 +239,11 @@ def run(out, tier, model_ok=True):
   n_big_over = 0
   for (counts, st), r in zip(big_jobs, big):
     case = {'class_counts': counts, 'setting': {k: list(v) if isinstance(v, tuple) else v for k, v in st.items()}}
-    want = spec_count(counts, st, sum(counts.values()))
+    try:
+      want = spec_count(counts, st, sum(counts.values()))
+    except GuardBand:
+      out.count(None)
+      continue
     n_big_over += want > 2 ** 53
     if 'error' in r:
       out.oracle_violation({'call': 'count_max_designs', 'symptom': 'exception'}, case, f'{counts} {st}: {r["error"]}')
